@@ -306,6 +306,11 @@ func (x *execCtx) selectionSet(obj Obj, objType *ast.Definition, ss ast.Selectio
 			res[c.key] = objType.Name
 			continue
 		}
+		if f.Name == "__type" && objType == x.e.Schema.Query {
+			// the small part of introspection the generator uses: __type(name:) { name kind }
+			res[c.key] = x.introspectType(f)
+			continue
+		}
 		fd := objType.Fields.ForName(f.Name)
 		if fd == nil {
 			// validated documents cannot get here
@@ -550,6 +555,28 @@ func WithDefaults(op *ast.OperationDefinition, vars map[string]interface{}) map[
 			continue
 		}
 		out[vd.Variable] = ConstValue(vd.DefaultValue)
+	}
+	return out
+}
+
+func (x *execCtx) introspectType(f *ast.Field) interface{} {
+	name, _ := f.ArgumentMap(x.vars)["name"].(string)
+	td := x.e.Schema.Types[name]
+	if td == nil {
+		return nil
+	}
+	out := map[string]interface{}{}
+	for _, s := range f.SelectionSet {
+		if sf, ok := s.(*ast.Field); ok {
+			switch sf.Name {
+			case "name":
+				out[sf.Alias] = td.Name
+			case "kind":
+				out[sf.Alias] = string(td.Kind)
+			case "__typename":
+				out[sf.Alias] = "__Type"
+			}
+		}
 	}
 	return out
 }
